@@ -13,6 +13,11 @@ def specs(tier):
     fmts = ("%f", "%d", "%.6m") if tier == "quick" else D.NUMBER_FORMATS
     for k, f in [("Text", None), ("BLOB", None)] + [("Number", x) for x in fmts]:
         out.append(TaskSpec("driver apply[%s,%s]" % (k, f), "contracts.write", "task_apply", (k, f), replay_kind="write.e2e"))
+    # number texts in sexagesimal notation: the value formula is proved on str_to_num (C10 tasks, C06-tagged clauses)
+    from contracts import numbers as N
+    for form in N.FORMS:
+        for f in ("%f", "%.6m"):
+            out.append(TaskSpec("parse[%s as %s]" % (form, f), "contracts.numbers", "task_parse", (form, f), replay_kind="number.parse"))
     # switches: the write clauses are proved together with the rule (C09 tasks, C06-tagged obligations)
     out.append(TaskSpec("switch apply_rule", "contracts.switch", "task_apply_rule", (), replay_kind="switch.op"))
     for op in ("set_value", "set_value_from_message"):
